@@ -102,10 +102,12 @@ Definition chk_world (c : bool * (((str * bool) * (str * list str)) * observatio
   end.
 
 (* ---- gophermaps inside a ZIP archive (handlers/ZIP.py VFSZip) ----
-   VFSZip.exists(selector): _getfspathfinal chops len(zipfilename) characters off the
-   selector WHATEVER they are, then one leading and one trailing slash; the rest is
-   looked up in the archive's index.  `members` lists the archive paths of all
-   directories and files ("" is the archive root). *)
+   VFSZip.exists(selector), /repo 91cede6: a selector that is the archive or lies below it
+   (_inarchive) is looked up in the archive's index after the archive's own selector, one
+   leading and one trailing slash are removed; every other selector (a link that points out
+   of the archive, a URL: selector) is answered by the file system the archive lives in.
+   `members` lists the archive paths of all directories and files ("" is the archive root),
+   `outside` the selectors of the surrounding scratch tree as for k_exists. *)
 Definition zip_inner (zipname sel : str) : str :=
   let s := skipn (List.length zipname) sel in
   let s := match s with c :: r => if c =? GM_SLASH then r else s | [] => [] end in
@@ -113,7 +115,14 @@ Definition zip_inner (zipname sel : str) : str :=
   | Some c => if c =? GM_SLASH then drop_last s else s
   | None => s
   end.
-Definition k_exists_zip (zipname : str) (members : list str) (sel : str) : bool :=
+Definition in_archive (zipname sel : str) : bool :=
+  str_eqb sel zipname || prefixb (zipname ++ [GM_SLASH]) sel.
+Definition k_exists_zip (zipname : str) (members outside : list str) (sel : str) : bool :=
+  if in_archive zipname sel then mem_str (zip_inner zipname sel) members
+  else k_exists outside sel.
+(* PINNED rule (before 91cede6): len(zipname) characters were cut off ANY selector, so a link
+   out of the archive was looked up inside it ("/a.txt" -> "" = the archive root). *)
+Definition k_exists_zip_pinned (zipname : str) (members : list str) (sel : str) : bool :=
   mem_str (zip_inner zipname sel) members.
 
 Definition k_entries_with (ex : str -> bool) (fixed : bool) (sel : str) (is_file : bool) (content : str)
@@ -121,10 +130,10 @@ Definition k_entries_with (ex : str -> bool) (fixed : bool) (sel : str) (is_file
   gophermap_prepare ex k_populate
     ((if fixed then gm_linkbase_fixed else gm_linkbase_pinned) (k_kind is_file) sel) content.
 
-(* (model variant, ((zip selector, ((selector, is map file), (content, archive members))), observation)) *)
-Definition chk_zworld (c : bool * ((str * ((str * bool) * (str * list str))) * observation)) : bool :=
-  let '(fixed, ((zipname, ((sel, is_file), (content, members))), obs)) := c in
-  let model := k_entries_with (k_exists_zip zipname members) fixed sel is_file content in
+(* (model variant, ((zip selector, ((selector, is map file), (content, (archive members, surrounding selectors)))), observation)) *)
+Definition chk_zworld (c : bool * ((str * ((str * bool) * (str * (list str * list str)))) * observation)) : bool :=
+  let '(fixed, ((zipname, ((sel, is_file), (content, (members, outside)))), obs)) := c in
+  let model := k_entries_with (k_exists_zip zipname members outside) fixed sel is_file content in
   match obs, model with
   | inl (inl cores), Ok es => list_eqb core_eqb (map core_of es) cores
   | inl (inr 0), Raise IndexError => true
